@@ -8,8 +8,9 @@ CONSTANTS
   WithCrash = FALSE
   HeadInBatch = TRUE
   CrashInHeadWindow = FALSE
+  WithTamper = FALSE
   SpendTrimCandidate = TRUE
-INVARIANTS ImageConforms AcceptedBlocksValid ReorgEqualsFreshReplay CommitmentEqualsContent SpentAtMostOnce
+INVARIANTS TamperedRejected ImageConforms AcceptedBlocksValid ReorgEqualsFreshReplay CommitmentEqualsContent SpentAtMostOnce
 CONSTRAINT HighWater
 POSTCONDITION TraceAccepted
 CHECK_DEADLOCK FALSE
